@@ -108,8 +108,7 @@ def handle (key : String) (ins obs : List String) : Verdict :=
       if !consistent2 op c then Verdict.bad "inconsistent outer table (harness bug)" else
       if !sameSet v1 v2 then Verdict.bad "lists are not the same set (harness bug)" else
       let ex := k == "C03.exq"
-      let f := fun vs => if numVars L ≠ numVars R then none else
-        some (if ex then binaryOpWithExists L R op vs else binaryOpWithForAll L R op vs)
+      let f := fun vs => nestedApplyO L R (trigOfList vs) op (if ex then Gen.or_ else Gen.and_)
       verdict (if ex then "exq" else "allq") n L R (conn2 c) (if ex then (· || ·) else (· && ·))
         (trigOfList v1) [f v1, f v2] obs
     | _, _, _, _, _, _ => Verdict.bad "args"
@@ -130,13 +129,13 @@ def handle (key : String) (ins obs : List String) : Verdict :=
   | "C03.varex", [l, x] =>
     match parseArr? l, x.toNat? with
     | some L, some x =>
-      let m := if x < numVars L then some (varExists L x) else none
+      let m := varExistsO L x
       verdict "varex" (numVars L) L L (· && ·) (· || ·) (· == x) [m, m] obs
     | _, _ => Verdict.bad "args"
   | "C03.varall", [l, x] =>
     match parseArr? l, x.toNat? with
     | some L, some x =>
-      let m := if x < numVars L then some (varForAll L x) else none
+      let m := varForAllO L x
       verdict "varall" (numVars L) L L (· && ·) (· && ·) (· == x) [m] obs
     | _, _ => Verdict.bad "args"
   | _, _ => Verdict.bad ("key " ++ key)
